@@ -33,3 +33,16 @@ Inductive cstmt17 : Type :=
 
 (* a translated function: its signature as text (receiver kind included) and its body *)
 Definition cfun17 : Type := (string * list cstmt17)%type.
+
+(* an indexing or slicing expression inside a translated body (what can panic with "index out of range" /
+   "slice bounds out of range"): the function, the operand, the index or the bounds as text, and the conditions
+   that enclose it, outermost first (an else branch as !(cond), a case clause as `case labels`, a range body
+   as its header, a function literal as `func`) *)
+Record site17 : Type := Site {
+  st_fun : string;
+  st_kind : string;              (* "index" or "slice" *)
+  st_x : string;                 (* the operand *)
+  st_lo : string;                (* the index, or the low bound ("" = none) *)
+  st_hi : string;                (* the high bound ("" = none; always "" for an index) *)
+  st_guards : list string
+}.
